@@ -9,6 +9,7 @@ From Coq Require Import ZArith NArith List Bool.
 From Bignums Require Import BigZ.
 From V Require Import Lib.BytesZ Lib.EcFermat Spec.EcdsaSpec Prim.EcdsaCurve Model.Ecdsa
   Proofs.EcdsaProofs Proofs.EcdsaCurveProofs Proofs.EcdsaToy.
+From V Require Proofs.Primes.
 Import ListNotations.
 Open Scope Z_scope.
 Set Warnings "-notation-overridden".
@@ -214,6 +215,30 @@ Theorem C11_raw_accept_iff_on_curve :
     (y * y) mod curve_p C = (x * x * x + BigZ.to_Z (cv_a C) * x + BigZ.to_Z (cv_b C)) mod curve_p C.
 Proof. exact on_curve_xy_spec. Qed.
 Print Assumptions C11_raw_accept_iff_on_curve.
+
+(* ... and both constants of both curves ARE prime (Proofs/Primes.v: Pocklington certificates checked
+   by the kernel), so the two statements above hold without hypotheses for the package's curves *)
+Theorem C11_p256_inverse :
+  forall s, s mod curve_n P256 <> 0 -> (s * eo_inv (ops_of P256) s) mod curve_n P256 = 1.
+Proof.
+  assert (H : 2 < curve_n P256) by (vm_compute; reflexivity).
+  exact (C11_concrete_inverse P256 Primes.p256_n_prime H).
+Qed.
+Print Assumptions C11_p256_inverse.
+Theorem C11_secp256k1_inverse :
+  forall s, s mod curve_n Secp256k1 <> 0 -> (s * eo_inv (ops_of Secp256k1) s) mod curve_n Secp256k1 = 1.
+Proof.
+  assert (H : 2 < curve_n Secp256k1) by (vm_compute; reflexivity).
+  exact (C11_concrete_inverse Secp256k1 Primes.secp256k1_n_prime H).
+Qed.
+Print Assumptions C11_secp256k1_inverse.
+Theorem C11_field_and_order_primes :
+  is_true (prime (Z.to_nat (curve_p P256))) /\ is_true (prime (Z.to_nat (curve_n P256))) /\
+  is_true (prime (Z.to_nat (curve_p Secp256k1))) /\ is_true (prime (Z.to_nat (curve_n Secp256k1))).
+Proof.
+  exact (conj Primes.p256_p_prime (conj Primes.p256_n_prime (conj Primes.secp256k1_p_prime Primes.secp256k1_n_prime))).
+Qed.
+Print Assumptions C11_field_and_order_primes.
 
 (* ---- non-vacuity ---- *)
 (* [ec_laws] is satisfiable, with a signature that signs, verifies and whose twin verifies *)
